@@ -1,288 +1,15 @@
-//! Shared types for all dbsim checks.
+//! dbsim's view of the shared harness types, plus the agdb-specific probe collection.
 
-use serde_json::{Value, json};
-use simcore::supervise::WorkerCtx;
-use std::cell::RefCell;
-use std::collections::BTreeMap;
-use std::sync::atomic::{AtomicUsize, Ordering};
+pub use simcore::harness::*;
 
-#[derive(Clone, Copy, Debug, PartialEq, Eq)]
-pub enum Tier {
-    Quick,
-    Thorough,
+pub trait Probes {
+    /// Drains agdb's cfg(agdb_verif) branch probes of this thread into the run's counters.
+    fn probes(&mut self);
 }
 
-impl Tier {
-    pub fn parse(s: &str) -> Tier {
-        if s == "thorough" { Tier::Thorough } else { Tier::Quick }
+impl Probes for RunReport {
+    fn probes(&mut self) {
+        let items: Vec<(String, u64)> = agdb::verif::take_probes().into_iter().map(|(k, v)| (k.to_string(), v)).collect();
+        self.add_prefixed("probe.", items);
     }
-    pub fn name(&self) -> &'static str {
-        match self {
-            Tier::Quick => "quick",
-            Tier::Thorough => "thorough",
-        }
-    }
-}
-
-#[derive(Clone, Debug)]
-pub struct Viol {
-    pub property: String,
-    pub class: String,
-    pub detail: String,
-    pub trial: u64,
-}
-
-#[derive(Default, Debug)]
-pub struct RunReport {
-    pub viols: Vec<Viol>,
-    /// cases evaluated (crash points, steps compared, schedules ...)
-    pub evals: u64,
-    /// of those, distinct and non-trivial by the check's rule
-    pub nontrivial: u64,
-    pub prog_hash: u64,
-    pub log_hash: u64,
-    pub counters: BTreeMap<String, u64>,
-    pub known_cut: Option<String>,
-}
-
-impl RunReport {
-    pub fn count(&mut self, k: &str, n: u64) {
-        if n > 0 {
-            *self.counters.entry(k.to_string()).or_insert(0) += n;
-        }
-    }
-    pub fn probes(&mut self) {
-        for (k, v) in agdb::verif::take_probes() {
-            *self.counters.entry(format!("probe.{k}")).or_insert(0) += v;
-        }
-    }
-}
-
-/// Marker interface: the worker prints `M run trial` before an untrusted trial; replay does not.
-pub struct Trials<'a> {
-    pub ctx: Option<&'a WorkerCtx>,
-    pub run: u64,
-    pub first: u64,
-    pub next: u64,
-}
-
-impl<'a> Trials<'a> {
-    pub fn replay() -> Trials<'static> {
-        Trials { ctx: None, run: 0, first: 0, next: 0 }
-    }
-    /// Starts the next trial; false = already evaluated by a predecessor worker (skip it).
-    pub fn begin(&mut self) -> Option<u64> {
-        let t = self.next;
-        self.next += 1;
-        if t < self.first {
-            return None;
-        }
-        if let Some(c) = self.ctx {
-            c.mark(self.run, t);
-        }
-        Some(t)
-    }
-}
-
-// ---------------------------------------------------------------- panics
-
-thread_local! {
-    static LAST_PANIC: RefCell<Option<String>> = const { RefCell::new(None) };
-    static SITE: RefCell<Option<String>> = const { RefCell::new(None) };
-    static SITES: RefCell<BTreeMap<String, String>> = const { RefCell::new(BTreeMap::new()) };
-}
-
-fn strip_generics(f: &str) -> String {
-    // "agdb::storage::Storage<D>::read_records" -> "agdb::storage::Storage::read_records"
-    let mut out = String::new();
-    let mut depth = 0;
-    for c in f.chars() {
-        match c {
-            '<' => depth += 1,
-            '>' => depth -= 1,
-            _ if depth == 0 => out.push(c),
-            _ => {}
-        }
-    }
-    out
-}
-
-/// Signature of the last caught panic: the innermost agdb function plus the normalised message.
-pub fn panic_class(msg: &str) -> String {
-    let site = SITE.with(|s| s.borrow_mut().take()).unwrap_or_else(|| "?".into());
-    let body = msg.splitn(2, ": ").nth(1).unwrap_or(msg);
-    let body = body.split(" [via ").next().unwrap_or(body);
-    let body = body.split(" [in ").next().unwrap_or(body);
-    format!("panic@{site}: {}", normalise(body))
-}
-
-pub fn install_panic_hook() {
-    std::panic::set_hook(Box::new(|info| {
-        let loc = info
-            .location()
-            .map(|l| {
-                let f = l.file();
-                let f = f.rsplit("/repo/").next().unwrap_or(f);
-                format!("{f}:{}", l.line())
-            })
-            .unwrap_or_else(|| "?".into());
-        let msg = if let Some(s) = info.payload().downcast_ref::<&str>() {
-            s.to_string()
-        } else if let Some(s) = info.payload().downcast_ref::<String>() {
-            s.clone()
-        } else if info.payload().downcast_ref::<crate::simfs::BudgetExceeded>().is_some() {
-            "BUDGET".to_string()
-        } else {
-            "non-string payload".to_string()
-        };
-        let mut trace = String::new();
-        if msg != "BUDGET" {
-            // first agdb frames: the call site is the stable part of a panic's identity (line numbers are not).
-            // Symbolising a backtrace costs tens of milliseconds, so panics raised at a location inside agdb
-            // (where the innermost agdb function is determined by the location) are resolved once per location.
-            let cached = if loc.starts_with("agdb") { SITES.with(|c| c.borrow().get(&loc).cloned()) } else { None };
-            match cached {
-                Some(site) => {
-                    SITE.with(|s| *s.borrow_mut() = Some(site.clone()));
-                    trace = format!(" [in {site}]");
-                }
-                None => {
-                    let bt = std::backtrace::Backtrace::force_capture().to_string();
-                    let frames: Vec<String> = bt.lines().map(|l| l.trim()).filter(|l| l.contains("agdb::") && !l.contains("dbsim")).take(4).map(|l| l.splitn(2, ": ").nth(1).unwrap_or(l).to_string()).collect();
-                    if let Some(f) = frames.first() {
-                        let site = strip_generics(f);
-                        if loc.starts_with("agdb") {
-                            SITES.with(|c| c.borrow_mut().insert(loc.clone(), site.clone()));
-                        }
-                        SITE.with(|s| *s.borrow_mut() = Some(site));
-                    }
-                    trace = format!(" [via {}]", frames.join(" <- "));
-                }
-            }
-        }
-        LAST_PANIC.with(|p| *p.borrow_mut() = Some(format!("{loc}: {msg}{trace}")));
-    }));
-}
-
-pub enum Caught<T> {
-    Ok(T),
-    Panic(String),
-    Budget,
-}
-
-/// Runs `f`, turning a panic into a value carrying the panic site.
-pub fn catch<T>(f: impl FnOnce() -> T) -> Caught<T> {
-    LAST_PANIC.with(|p| *p.borrow_mut() = None);
-    match std::panic::catch_unwind(std::panic::AssertUnwindSafe(f)) {
-        Ok(v) => Caught::Ok(v),
-        Err(e) => {
-            if e.downcast_ref::<crate::simfs::BudgetExceeded>().is_some() {
-                return Caught::Budget;
-            }
-            let s = LAST_PANIC.with(|p| p.borrow_mut().take()).unwrap_or_else(|| "panic".into());
-            Caught::Panic(s)
-        }
-    }
-}
-
-/// Normalises a panic message into a signature: digits collapsed.
-pub fn normalise(msg: &str) -> String {
-    let mut out = String::new();
-    let mut last_digit = false;
-    for c in msg.chars() {
-        if c.is_ascii_digit() {
-            if !last_digit {
-                out.push('N');
-            }
-            last_digit = true;
-        } else {
-            out.push(c);
-            last_digit = false;
-        }
-    }
-    out.chars().take(160).collect()
-}
-
-// ---------------------------------------------------------------- allocation cap
-
-pub struct CapAlloc;
-
-static CAP: AtomicUsize = AtomicUsize::new(usize::MAX);
-pub static TRACE_OVERCAP: AtomicUsize = AtomicUsize::new(0);
-
-pub fn set_alloc_cap(cap: Option<usize>) {
-    if std::env::var("VERIF_BACKTRACE").is_ok() {
-        TRACE_OVERCAP.store(1, Ordering::Relaxed);
-    }
-    CAP.store(cap.unwrap_or(usize::MAX), Ordering::SeqCst);
-}
-
-unsafe impl std::alloc::GlobalAlloc for CapAlloc {
-    unsafe fn alloc(&self, layout: std::alloc::Layout) -> *mut u8 {
-        check(layout.size());
-        unsafe { std::alloc::System.alloc(layout) }
-    }
-    unsafe fn dealloc(&self, ptr: *mut u8, layout: std::alloc::Layout) {
-        unsafe { std::alloc::System.dealloc(ptr, layout) }
-    }
-    unsafe fn alloc_zeroed(&self, layout: std::alloc::Layout) -> *mut u8 {
-        check(layout.size());
-        unsafe { std::alloc::System.alloc_zeroed(layout) }
-    }
-    unsafe fn realloc(&self, ptr: *mut u8, layout: std::alloc::Layout, new_size: usize) -> *mut u8 {
-        check(new_size);
-        unsafe { std::alloc::System.realloc(ptr, layout, new_size) }
-    }
-}
-
-#[inline]
-fn check(size: usize) {
-    if size > CAP.load(Ordering::Relaxed) {
-        overcap(size);
-    }
-}
-
-#[cold]
-fn overcap(size: usize) -> ! {
-    // async-signal-safe style: format without allocating
-    let mut buf = [0u8; 64];
-    let prefix = b"OVERCAP ";
-    buf[..prefix.len()].copy_from_slice(prefix);
-    let mut n = size;
-    let mut digits = [0u8; 24];
-    let mut d = 0;
-    loop {
-        digits[d] = b'0' + (n % 10) as u8;
-        n /= 10;
-        d += 1;
-        if n == 0 {
-            break;
-        }
-    }
-    let mut len = prefix.len();
-    for i in (0..d).rev() {
-        buf[len] = digits[i];
-        len += 1;
-    }
-    buf[len] = b'\n';
-    len += 1;
-    unsafe {
-        libc_write(2, buf.as_ptr(), len);
-    }
-    {
-        CAP.store(usize::MAX, Ordering::SeqCst);
-        let bt = std::backtrace::Backtrace::force_capture().to_string();
-        let frames: Vec<String> = bt.lines().map(|l| l.trim()).filter(|l| l.contains("agdb::") && !l.contains("dbsim")).take(5).map(|l| l.splitn(2, ": ").nth(1).unwrap_or(l).to_string()).collect();
-        eprintln!("OVERCAP-VIA {}", frames.join(" <- "));
-    }
-    std::process::abort();
-}
-
-unsafe extern "C" {
-    #[link_name = "write"]
-    fn libc_write(fd: i32, buf: *const u8, count: usize) -> isize;
-}
-
-pub fn viol_json(run: u64, v: &Viol, plan: &Value) -> Value {
-    json!({"run": run, "trial": v.trial, "property": v.property, "class": v.class, "detail": v.detail, "plan": plan})
 }
